@@ -350,6 +350,9 @@ func (g *gen) requiredOrDefault(parent *Att, name string, f *Att) {
 		if f.Type.Prim != "" {
 			if d, ok := g.defaultFor(f.Type.Prim, f.Val); ok {
 				f.Default, f.HasDef = d, true
+				if g.r.Intn(5) == 0 {
+					parent.Required = append(parent.Required, name) // required and defaulted
+				}
 			}
 		}
 	}
@@ -592,6 +595,9 @@ func (g *gen) method(s *Service, name string, cell int) {
 	}
 	if len(payload.Type.Object) > 0 {
 		m.Payload = payload
+	}
+	if !strings.Contains(h.Path, "{") && r.Intn(8) == 0 {
+		h.Path += "/" // a route ending in a slash
 	}
 
 	// result
